@@ -7,6 +7,7 @@ import (
 	"math/rand"
 	"sort"
 	"strings"
+	"time"
 
 	"github.com/Shopify/sarama"
 
@@ -177,7 +178,7 @@ func Str(s string) string {
 			panic("balgen: non-printable id " + s)
 		}
 	}
-	return `(S "` + s + `")`
+	return `(str_of "` + s + `")`
 }
 func StrList(l []string) string {
 	x := make([]string, len(l))
@@ -372,6 +373,9 @@ func Random(r *rand.Rand, nm, nt, np int, coverAll bool) Input {
 
 // ---------------------------------------------------------------- sticky runs
 
+// HangTimeout is how long a sticky Plan call may take before it is reported as not terminating.
+var HangTimeout = 10 * time.Second
+
 type Oracle struct {
 	PrepopMembers  []string `json:"prepop_members"`
 	PrepopParts    []TP     `json:"prepop_parts"`
@@ -394,6 +398,7 @@ type StickyRun struct {
 	Hooked  bool        `json:"hooked"`
 	Err     bool        `json:"err"`
 	Panic   string      `json:"panic,omitempty"`
+	Hang    bool        `json:"hang,omitempty"`
 	Plan    []PlanEntry `json:"plan"`
 	RawPlan sarama.BalanceStrategyPlan `json:"-"`
 	Other   map[string]int `json:"other,omitempty"`
@@ -423,7 +428,31 @@ func RunSticky(in Input) StickyRun {
 		DecodeUD(&in.Members[i])
 	}
 	run := StickyRun{In: in}
-	plan, tr, err, panicked := sarama.VerifStickyPlan(in.MemberMap(), in.TopicMap())
+	tr := &sarama.VerifStickyTrace{}
+	type res struct {
+		plan     sarama.BalanceStrategyPlan
+		err      error
+		panicked string
+	}
+	done := make(chan res, 1)
+	mm, tm := in.MemberMap(), in.TopicMap()
+	go func() {
+		p, e, pn := sarama.VerifStickyPlanInto(tr, mm, tm)
+		done <- res{p, e, pn}
+	}()
+	var plan sarama.BalanceStrategyPlan
+	var err error
+	var panicked string
+	select {
+	case x := <-done:
+		plan, err, panicked = x.plan, x.err, x.panicked
+	case <-time.After(HangTimeout):
+		// Plan does not return: the goroutine is abandoned (it keeps reporting to the global observer, so the caller
+		// must not start another sticky run in this process)
+		run.Hang = true
+	}
+	tr.Mu.Lock()
+	defer tr.Mu.Unlock()
 	run.Hooked = tr.Events > 0
 	run.Other = tr.Other
 	run.Err = err != nil
@@ -511,6 +540,8 @@ func RunSticky(in Input) StickyRun {
 func (r *StickyRun) CoqCase(fx bool) string {
 	obs := "OErr"
 	switch {
+	case r.Hang:
+		obs = "OHang"
 	case r.Panic != "":
 		obs = "OPanic"
 	case !r.Err:
